@@ -190,3 +190,19 @@ Example add_term_forms_differ :
     = (true, [(0, 1); (15, 2)]) /\
   unambiguous1 nat nat ncomp t l = false.
 Proof. cbv. repeat split. Qed.
+
+(** the hypotheses of [add_term_ref_is_termlist] are satisfiable: same set, new pole 3 (like the pole 0 only): both forms merge into 0 *)
+Example add_term_forms_agree :
+  let l := [(0, 1); (15, 1)] in
+  let t := (3, 1) in
+  sorted_sep nat nat ncomp l /\ unambiguous1 nat nat ncomp t l = true /\
+  (forall a, ncomp a a = false) /\ (forall a b c, ncomp a b = true -> ncomp b c = true -> ncomp a c = true) /\
+  add_term_ref (nat * nat) (tcomp nat nat ncomp) (tplus nat nat Nat.add) (tnegl nat nat (fun _ _ => false)) (length l) t l
+    = (true, fst (add_term nat nat ncomp (fun _ _ => false) Nat.add t l)) /\
+  fst (add_term nat nat ncomp (fun _ _ => false) Nat.add t l) = [(0, 2); (15, 1)].
+Proof.
+  split; [cbv; repeat split|]. split; [reflexivity|].
+  split; [intros a; unfold ncomp; apply Nat.leb_gt; lia|].
+  split; [intros a b c; unfold ncomp; rewrite !Nat.leb_le; lia|].
+  split; reflexivity.
+Qed.
